@@ -4,7 +4,9 @@ Bounded exhaustive product, executed on the real parser:
 
   link shapes (plain target with / without compute_fn, two sources, group-valued source -> dict / int target,
   target inside a class group, x.init_args.k of a class-typed argument incl. class changes, every item of a
-  List[class], the documentation's Trainer/Logger group; each bare and inside one / two levels of subcommands)
+  List[class], the documentation's Trainer/Logger group, plain / class-group targets whose option has several
+  spellings - aliases and their abbreviations, the --t+ of list types, the --no_t of yes/no flags - with the own
+  option written in every spelling; each bare and inside one / two levels of subcommands)
   x which channels (defaults, environment, --config, argv, parse_object, parse_string, parse_env) supply every
     source leaf - all subsets per leaf, a different value per channel
   x how the class / the list of classes is configured (channel, class, class change)
